@@ -5,6 +5,7 @@ import (
 	"go/types"
 	"regexp"
 	"sort"
+	"strconv"
 	"strings"
 
 	"verif/third_party/xtools/go/ssa"
@@ -345,4 +346,82 @@ func withHelpers(p *core.Prog, fn *ssa.Function) []*ssa.Function {
 	}
 	visit(fn)
 	return out
+}
+
+// strPart is one piece of a string built by fmt.Sprintf or by concatenation:
+// a literal, or a value with the verb it is formatted with ("s", "d", "v").
+type strPart struct {
+	Lit  string
+	Val  *core.Expr
+	Verb string
+}
+
+// stringParts flattens fmt.Sprintf(constant format, args...) and a + b + c into
+// the same list of pieces, adjacent literals merged; ok is false for anything
+// else (or a format with width/flags).
+func stringParts(p *core.Prog, e *core.Expr) ([]strPart, bool) {
+	var out []strPart
+	add := func(x strPart) {
+		if x.Val == nil && len(out) > 0 && out[len(out)-1].Val == nil {
+			out[len(out)-1].Lit += x.Lit
+			return
+		}
+		out = append(out, x)
+	}
+	var flat func(e *core.Expr) bool
+	flat = func(e *core.Expr) bool {
+		switch {
+		case e.Op == "bin" && e.Name == "+":
+			return flat(e.Args[0]) && flat(e.Args[1])
+		case e.Op == "const" && strings.HasPrefix(e.Name, `"`):
+			if u, err := strconv.Unquote(e.Name); err == nil {
+				add(strPart{Lit: u})
+				return true
+			}
+			return false
+		case e.Op == "call" && e.Name == "fmt.Sprintf":
+			c, ok := e.Val.(*ssa.Call)
+			if !ok || len(e.Args) < 1 || e.Args[0].Op != "const" {
+				return false
+			}
+			format, err := strconv.Unquote(e.Args[0].Name)
+			if err != nil {
+				return false
+			}
+			var args []*core.Expr
+			if len(c.Call.Args) > 1 {
+				args = variadicArgs(p, c.Call.Args[1])
+			}
+			ai := 0
+			for i := 0; i < len(format); i++ {
+				if format[i] != '%' {
+					add(strPart{Lit: string(format[i])})
+					continue
+				}
+				if i+1 >= len(format) {
+					return false
+				}
+				i++
+				switch format[i] {
+				case '%':
+					add(strPart{Lit: "%"})
+				case 's', 'd', 'v':
+					if ai >= len(args) {
+						return false
+					}
+					add(strPart{Val: args[ai], Verb: string(format[i])})
+					ai++
+				default:
+					return false
+				}
+			}
+			return ai == len(args)
+		}
+		add(strPart{Val: e, Verb: "s"})
+		return true
+	}
+	if !flat(e) {
+		return nil, false
+	}
+	return out, true
 }
